@@ -421,7 +421,9 @@ func (c *c18) engineProbe(thorough bool) {
 // meaning to.  What /bin/sh and bash do with them is RECORDED only (extra.reserved_names): on the
 // unchanged library some of them abort the start-up script (dash: OPTIND) or make bash evaluate the
 // quoted value arithmetically, which can run a command (RANDOM, OPTIND, HISTCMD, SRANDOM) - reported
-// as a finding by the audit, no oracle failure here.
+// as a finding by the audit.  For the property's own shell (/bin/sh) a name that does not receive its
+// value is an oracle failure with the signature K-C18-reserved-<NAME> (OPTIND is a listed known
+// finding); what bash does is recorded only.
 func (c *c18) reservedNames() {
 	obs := map[string]string{}
 	shells := [][2]string{{"sh", "/bin/sh"}}
@@ -456,6 +458,11 @@ func (c *c18) reservedNames() {
 			}
 			obs[name] += sh[0] + ": " + what + "; "
 			c.o.Stat("reserved_name_" + strings.ReplaceAll(strings.ToLower(what), " ", "_"))
+			if sh[0] == "sh" && what != "verbatim" {
+				// the property's own shell: a plain identifier that Set accepts does not get its value
+				c.o.Fail("verbatim", fmt.Sprintf("environment {%s: %q}: the real /bin/sh does not end up with the configured value (%s) - %s is a name the shell itself interprets", name, v, what, name),
+					"K-C18-reserved-"+name, map[string]interface{}{"op": "reserved-name", "name": name, "value": v, "shell": sh[1], "outcome": what})
+			}
 		}
 	}
 	c.o.Extra["reserved_names"] = obs
